@@ -1,4 +1,5 @@
 """C07: enforce either returns the decision or raises the requested exception."""
+from common import corr_kind
 from world import base_case, run_cases, describe, out_of_model, agree, NOT_MAPPING
 from c06 import gen_ruleset, ROLESETS, render_expr
 
@@ -147,7 +148,7 @@ def run(run, binfo):
     if bad_corr and not run.violations:
         c, m, i = bad_corr[0]
         run.violation('correspondence:S4', 'model and implementation disagree on enforce/authorize',
-                      {'kind': 'broken-obligation', 'obligation': 'correspondence suite S4 (enforce modes)',
+                      {'kind': corr_kind(m), 'oracle': 'the Coq model, for which the property is proved', 'obligation': 'correspondence suite S4 (enforce modes)',
                        'input': describe(c), 'model': m, 'observed': i, 'count': len(bad_corr)})
     run.rule = ('%d generated rule sets (role, generic, reference, recording custom leaves) x 3 enforced rules each x do_raise '
                 'on/off x no/custom exception class with positional and keyword arguments x debug logging on/off x rule by name '
